@@ -940,22 +940,41 @@ func (f *Frame) enterLoop(li *loopInfo, reach string, st *State, np int) string 
 		li.phis[phi] = entry
 		nv, inv := e.freshVal("lphi."+phi.Comment, phi.Type(), hst)
 		// region component of slices and strings is loop-stable (checked at back edges)
-		switch phi.Type().Underlying().(type) {
-		case *types.Slice:
-			nv.C[0] = entry.C[0]
-			li.stable[phi] = true
-		case *types.Basic:
-			if isStringType(phi.Type()) {
+		if f.regionDerived(li, phi) {
+			switch phi.Type().Underlying().(type) {
+			case *types.Slice:
 				nv.C[0] = entry.C[0]
 				li.stable[phi] = true
+			case *types.Basic:
+				if isStringType(phi.Type()) {
+					nv.C[0] = entry.C[0]
+					li.stable[phi] = true
+				}
 			}
 		}
 		e.assume("true", inv)
 		f.vals[phi] = nv
 	}
 	li.headSt = hst.clone()
-	// 3. assume invariants
 	f.curSt = hst
+	if f.fc != nil {
+		for _, l := range f.fc.LoopLets[li.ord] {
+			func() {
+				defer func() {
+					if r := recover(); r != nil {
+						if ee, ok := r.(evalError); ok {
+							e.fail(f, fmt.Errorf("loop let %s: %s", l.Name, ee.msg))
+							return
+						}
+						panic(r)
+					}
+				}()
+				delete(f.lets, l.Name)
+				f.lets[l.Name] = f.env(hst).eval(l.Expr)
+			}()
+		}
+	}
+	// 3. assume invariants
 	for _, c := range invs {
 		if !f.modeOK(c) {
 			continue
@@ -1418,4 +1437,46 @@ func (f *Frame) bindLarge(v ssa.Value) {
 	if changed {
 		f.vals[v] = val
 	}
+}
+
+// regionDerived: every value flowing into the header phi along a back edge is
+// obtained from the phi itself by re-slicing (so its region cannot change).
+func (f *Frame) regionDerived(li *loopInfo, phi *ssa.Phi) bool {
+	seen := map[ssa.Value]bool{}
+	var derived func(v ssa.Value) bool
+	derived = func(v ssa.Value) bool {
+		if v == ssa.Value(phi) {
+			return true
+		}
+		if seen[v] {
+			return true
+		}
+		seen[v] = true
+		switch u := v.(type) {
+		case *ssa.Slice:
+			return derived(u.X)
+		case *ssa.Phi:
+			if !li.blocks[u.Block()] {
+				return false
+			}
+			for _, e := range u.Edges {
+				if !derived(e) {
+					return false
+				}
+			}
+			return true
+		case *ssa.ChangeType:
+			return derived(u.X)
+		}
+		return false
+	}
+	b := li.header
+	for i, p := range b.Preds {
+		if b.Dominates(p) { // back edge
+			if !derived(phi.Edges[i]) {
+				return false
+			}
+		}
+	}
+	return true
 }
